@@ -576,9 +576,15 @@ class DynamicBayesianNetwork(DAG):
         >>> dbn.get_cpds()
         []
         """
+        # Resolve all the arguments before modifying the model.
+        to_remove = []
         for cpd in cpds:
             if isinstance(cpd, (tuple, list)):
                 cpd = self.get_cpds(cpd)
+            if cpd not in self.cpds:
+                raise ValueError(f"CPD not present in the model: {cpd}")
+            to_remove.append(cpd)
+        for cpd in to_remove:
             self.cpds.remove(cpd)
 
     def check_model(self):
